@@ -85,6 +85,14 @@ def rel_var(a, b, kind):
 def get_rel(env, a, b, kind, domain):
     if tag(a) == "const" and tag(b) == "const" and kind in ("f64",) + tuple(vg.INT_BITS) + ("bool", "char"):
         return const_rel(a, b, kind)
+    if kind == "PartialOrd<TwoFloat,TwoFloat>":
+        # two valid values compare by their words, lexicographically (that is what partial_cmp does for them: C06 / R12b)
+        va = env.val.get(("bool", mk("call", IS_VALID, a))); vb = env.val.get(("bool", mk("call", IS_VALID, b)))
+        if va is True and vb is True:
+            rh = get_rel(env, mk("field", a, 0), mk("field", b, 0), "f64", REL4)
+            if rh != "eq":
+                return rh
+            return get_rel(env, mk("field", a, 1), mk("field", b, 1), "f64", REL4)
     v, sw = rel_var(a, b, kind)
     if a is b and kind in vg.INT_BITS:
         return "eq"
